@@ -28,5 +28,6 @@ def run(ctx, chk):
     LR.rule_windows(ctx, chk, L, "N1")
     LR.rule_removal_returns(ctx, chk, L, "N2", "N3")
     LR.rule_owned_operands(ctx, chk, L, "N5")
+    LR.rule_inplace_same_id(ctx, chk, L, "N4")
     Q.rule_remove_find(chk, "N4")
     Q.rule_pop(chk, "N4", "N4", "N4")
